@@ -4,7 +4,8 @@
 (* POSIX.1-2024 XSH (open, close, dup, dup2 / fcntl F_DUPFD, pipe, read,   *)
 (* write, lseek, fcntl F_GETFD / F_SETFD / F_GETFL / F_SETFL(O_NONBLOCK),  *)
 (* fstat, fstatat, umask, chdir, getcwd, opendir/readdir, sigaction,       *)
-(* sigprocmask, sigpending, kill to self, fork, _exit, waitpid) and from    *)
+(* sigprocmask, sigpending, kill to self and to the child, fork, _exit,     *)
+(* waitpid) and from                                                       *)
 (* the doc comments of the system                                          *)
 (* traits in yash-env/src/system/*.rs where those deliberately differ from *)
 (* the system call (Close::close returns Ok for a closed descriptor).      *)
@@ -79,12 +80,15 @@ StdOfd  == [FreeOfd EXCEPT !.t = "std", !.r = TRUE, !.w = TRUE]
 ClosedFd == [o |-> 0, cx |-> FALSE]
 
 \* The per-process part of the state of the (at most one) child process
-\* created by fork: st is "none" (no child), "run", "exited" (a zombie with
-\* exit status code) or "signaled" (a zombie killed by signal sig).  The file
-\* tree, the open file descriptions and the pipes are shared with the parent.
+\* created by fork: st is "none" (no child yet), "run", "exited" (a zombie with
+\* exit status code), "signaled" (a zombie killed by signal sig) or "reaped"
+\* (the parent has waited for it: its lifetime has ended and its process ID no
+\* longer names a process; everything else is as in NoKid).  The file tree,
+\* the open file descriptions and the pipes are shared with the parent.
 NoKid == [ st |-> "none", code |-> 0, sig |-> "",
            fds |-> [x \in FdRange |-> ClosedFd], cwd |-> <<>>, lim |-> -1, um |-> 0,
            disp |-> [s \in AllSigs |-> "D"], mask |-> {}, pend |-> {}, caught |-> {} ]
+Reaped == [NoKid EXCEPT !.st = "reaped"]
 
 Init0 == [ node   |-> Tree0,
            fds    |-> [x \in FdRange |-> IF x <= 2 THEN [o |-> x + 1, cx |-> FALSE] ELSE ClosedFd],
@@ -538,7 +542,7 @@ ApPending(St, c) == Out(RSigs(St.pend), St)
 (* signals is not predicted.                                               *)
 
 ApFork(St, c) ==
-  IF St.kid.st # "none" THEN Out(RUndef("one child at a time"), St)
+  IF St.kid.st \notin {"none", "reaped"} THEN Out(RUndef("one child at a time"), St)
   ELSE IF St.caught # {} THEN Out(RUndef("fork with uncollected caught signals"), St)
   ELSE Out(ROk, [St EXCEPT !.kid = [NoKid EXCEPT !.st = "run", !.fds = St.fds, !.cwd = St.cwd, !.lim = St.lim,
                                                  !.um = St.um, !.disp = St.disp, !.mask = St.mask]])
@@ -589,10 +593,48 @@ ApKid(St, c) ==
 \* Wait::wait = waitpid(child, WNOHANG | ...): the changed state of the child,
 \* reported once (the zombie is then gone)
 ApWait(St, c) ==
-  CASE St.kid.st = "none"   -> Out(RErr("ECHILD"), St)
+  CASE St.kid.st \in {"none", "reaped"} -> Out(RErr("ECHILD"), St)
     [] St.kid.st = "run"    -> Out(R("nochange", 0, "", <<>>), St)
-    [] St.kid.st = "exited" -> Out(R("exited", St.kid.code, "", <<>>), [St EXCEPT !.kid = NoKid])
-    [] OTHER                -> Out(R("signaled", 0, St.kid.sig, <<>>), [St EXCEPT !.kid = NoKid])
+    [] St.kid.st = "exited" -> Out(R("exited", St.kid.code, "", <<>>), [St EXCEPT !.kid = Reaped])
+    [] OTHER                -> Out(R("signaled", 0, St.kid.sig, <<>>), [St EXCEPT !.kid = Reaped])
+
+\* [op |-> "killkid", sig |-> s]: kill(pid of the child, s) called by the
+\* parent; s = "0" is the null signal, "KILL" is SIGKILL (it "cannot be caught
+\* or ignored" and cannot be blocked: XBD signal.h, XSH sigprocmask), any other
+\* s is a member of AllSigs.
+\*  - The child runs: the signal is generated for it and handled by ITS
+\*    actions and mask (Generate on the swapped state); a child that is
+\*    terminated by it becomes a zombie "signaled" and SIGCHLD is sent to the
+\*    parent, exactly as when it terminates by a call of its own (KidGone).
+\*  - The child has terminated and has not been waited for: it is still
+\*    within its lifetime (XBD 3.x Process Lifetime: "... after [termination]
+\*    the process is inactive ... until its parent waits"), so the process ID
+\*    names a process and kill() succeeds (XSH kill, RATIONALE: "Since the
+\*    definition of process lifetime ... covers inactive processes, the
+\*    [ESRCH] error as described is inappropriate in this case"); an inactive
+\*    process takes no action on a signal and its status, once "made
+\*    available to the parent" by _exit / by the terminating signal, is what
+\*    wait reports: NO effect.
+\*  - The child has been waited for: its lifetime has ended; "[ESRCH] No
+\*    process or process group can be found corresponding to that specified
+\*    by pid" (no other process is created in this universe, so the process ID
+\*    has not been given to a new process).
+\*  - Before the first fork there is no process ID to name: not predicted.
+ApKillKid(St, c) ==
+  CASE St.kid.st = "none"   -> Out(RUndef("no child yet"), St)
+    [] St.kid.st = "reaped" -> Out(RErr("ESRCH"), St)
+    [] St.kid.st \in {"exited", "signaled"} -> Out(ROk, St)
+    [] OTHER ->
+       IF c.sig = "0" THEN Out(ROk, St)
+       ELSE LET Sw == Swap(St)
+                g  == IF c.sig = "KILL" THEN [und |-> FALSE, s |-> [Sw EXCEPT !.alive = FALSE]]
+                      ELSE Generate(Sw, c.sig)
+            IN IF g.und THEN Out(RUndef("blocked ignored signal"), St)
+               ELSE IF g.s.alive THEN Out(ROk, Swap(g.s))
+               ELSE LET t == KidGone(g.s, "signaled", 0, c.sig) IN
+                    IF St.disp["CHLD"] = "I" THEN Out(RUndef("SIGCHLD ignored: no zombie"), St)
+                    ELSE IF t.und THEN Out(RUndef("blocked ignored signal"), St)
+                    ELSE Out(ROk, t.s)
 
 Apply(St, c) ==
   CASE c.op = "open"    -> ApOpen(St, c)
@@ -625,6 +667,7 @@ Apply(St, c) ==
     [] c.op = "fork"    -> ApFork(St, c)
     [] c.op = "kid"     -> ApKid(St, c)
     [] c.op = "wait"    -> ApWait(St, c)
+    [] c.op = "killkid" -> ApKillKid(St, c)
     [] c.op = "exit"    -> Out(RUndef("the process under test exits"), St)
 
 ---------------------------------------------------------------------------
@@ -743,13 +786,16 @@ InKid(c) == [op |-> "kid", c |-> c]
 \* Signals across fork: the child starts with the parent's actions and mask
 \* and with NO pending signal; what either process does with its signals
 \* afterwards does not touch the other; the end of the child is reported to
-\* the parent by wait and SIGCHLD.
+\* the parent by wait and SIGCHLD.  The parent signals the child while it
+\* runs, after it has terminated and after it has been waited for.
+KillKidCalls(St, sigs) == IF St.kid.st = "none" THEN {} ELSE { [op |-> "killkid", sig |-> s] : s \in sigs }
 CallsFork(St) ==
      { [op |-> "sigaction", sig |-> "USR1", d |-> d] : d \in {"C", "D"} }
   \cup { [op |-> "sigaction", sig |-> "CHLD", d |-> "C"] }
   \cup { [op |-> "sigmask", how |-> hw, set |-> {"USR1"}] : hw \in {"ADD", "DEL"} }
   \cup { [op |-> "kill", sig |-> "USR1"], [op |-> "pending"], [op |-> "caught"], [op |-> "wait"] }
-  \cup (IF St.kid.st = "none" THEN { [op |-> "fork"] } ELSE {})
+  \cup KillKidCalls(St, {"0", "USR1", "KILL"})
+  \cup (IF St.kid.st \in {"none", "reaped"} THEN { [op |-> "fork"] } ELSE {})
   \cup (IF St.kid.st # "run" THEN {} ELSE
         { InKid(c) : c \in   { [op |-> "sigmask", how |-> hw, set |-> {"USR1"}] : hw \in {"ADD", "DEL"} }
                           \cup { [op |-> "kill", sig |-> "USR1"], [op |-> "pending"], [op |-> "caught"],
@@ -768,7 +814,8 @@ ForkFdCalls(St) ==
 CallsForkFd(St) ==
      ForkFdCalls(St)
   \cup { [op |-> "wait"] }
-  \cup (IF St.kid.st = "none" THEN { [op |-> "fork"] } ELSE {})
+  \cup KillKidCalls(St, {"USR1"})
+  \cup (IF St.kid.st \in {"none", "reaped"} THEN { [op |-> "fork"] } ELSE {})
   \cup (IF St.kid.st # "run" THEN {} ELSE { InKid(c) : c \in ForkFdCalls(St) \cup { [op |-> "exit", n |-> 0] } })
 
 Calls(St) ==
@@ -812,8 +859,11 @@ TypeOK ==
   /\ S.cwd \in Universe /\ S.node[S.cwd].k = "dir"
   /\ S.pend \subseteq S.mask                    \* a pending signal is a blocked one
   /\ S.um \in 0 .. 511
-  /\ S.kid.st \in {"none", "run", "exited", "signaled"}
+  /\ S.kid.st \in {"none", "run", "exited", "signaled", "reaped"}
   /\ S.kid.st = "none" => S.kid = NoKid
+  /\ S.kid.st = "reaped" => S.kid = Reaped
+  /\ S.kid.st = "exited" => S.kid.sig = ""
+  /\ S.kid.st = "signaled" => S.kid.sig \in AllSigs \cup {"KILL"} /\ S.kid.code = 0
   /\ S.kid.pend \subseteq S.kid.mask
   /\ S.kid.st # "run" => \A x \in FdRange : S.kid.fds[x].o = 0      \* a terminated process holds no descriptor
 
@@ -840,7 +890,29 @@ ForkLaw ==
         => /\ S'.kid.st = "run" /\ S'.kid.pend = {} /\ S'.kid.caught = {}
            /\ S'.kid.mask = S.mask /\ S'.kid.disp = S.disp /\ S'.kid.fds = S.fds
            /\ S'.kid.cwd = S.cwd /\ S'.kid.um = S.um /\ S'.kid.lim = S.lim
-           /\ [S' EXCEPT !.kid = NoKid] = S ]_vars
+           /\ [S' EXCEPT !.kid = S.kid] = S ]_vars
+
+\* XSH kill / wait: a signal sent to the child changes nothing in the parent
+\* but what SIGCHLD does to it; sent to a terminated child it changes nothing
+\* at all (so that wait still reports the status the child terminated with),
+\* whether the child has been waited for (ESRCH) or not (success); a child
+\* that has been waited for stays so until the next fork
+LastIs(op) == Len(h') = Len(h) + 1 /\ h'[Len(h')].c.op = op
+KillKidLaw ==
+  [][ /\ LastIs("killkid") =>
+           /\ S.kid.st # "none"
+           /\ S.kid.st \in {"exited", "signaled"} => h'[Len(h')].r = ROk /\ S' = S
+           /\ S.kid.st = "reaped" => h'[Len(h')].r = RErr("ESRCH") /\ S' = S
+           /\ S.kid.st = "run" => /\ h'[Len(h')].r = ROk
+                                  /\ S'.kid.st \in {"run", "signaled"}
+                                  /\ [S' EXCEPT !.kid = S.kid, !.pend = S.pend, !.caught = S.caught, !.ofd = S.ofd,
+                                                 !.pipe = S.pipe] = S
+                                  /\ S'.pend \ S.pend \subseteq {"CHLD"} /\ S'.caught \ S.caught \subseteq {"CHLD"}
+      /\ LastIs("wait") /\ S.kid.st \in {"exited", "signaled"} =>
+           /\ S'.kid = Reaped
+           /\ h'[Len(h')].r = IF S.kid.st = "exited" THEN R("exited", S.kid.code, "", <<>>)
+                                                      ELSE R("signaled", 0, S.kid.sig, <<>>)
+      /\ S.kid.st = "reaped" /\ ~LastIs("fork") => S'.kid = Reaped ]_vars
 
 ---------------------------------------------------------------------------
 (* P2 generator: one line per distinct state - the history that reaches it *)
@@ -859,6 +931,7 @@ TargetOf(St, c) ==
     IF ~IsOpen(St, c.fd) THEN "closed"
     ELSE LET o == OfdOf(St, c.fd) IN
       IF o.t = "file" THEN St.node[o.path].k ELSE o.t
+  ELSE IF c.op \in {"killkid", "wait"} THEN St.kid.st      \* what has become of the child
   ELSE "-"
 
 \* Observation of the successor state after a call that changed the state
@@ -879,10 +952,13 @@ PostCalls(St2, c) ==
               [op |-> "lseek", fd |-> 3, wh |-> "CUR", off |-> 0],
               [op |-> "kid", c |-> [op |-> "lseek", fd |-> 3, wh |-> "CUR", off |-> 0]] >>
       ELSE <<>>)
+  \* after a signal sent to the child: what wait reports (the last observation:
+  \* it consumes a zombie; every result is prescribed from the state St2)
+  \o (IF c.op = "killkid" THEN << [op |-> "wait"] >> ELSE <<>>)
 
 Post(St, c) ==
   LET a == Apply(St, c) IN
-  IF a.r.k = "undef" \/ (a.s = St /\ c.op \notin AllocOps) \/ ~a.s.alive THEN <<>>
+  IF a.r.k = "undef" \/ (a.s = St /\ c.op \notin AllocOps \cup {"killkid"}) \/ ~a.s.alive THEN <<>>
   ELSE LET pcs == PostCalls(a.s, c) IN [i \in 1 .. Len(pcs) |-> [c |-> pcs[i], r |-> Apply(a.s, pcs[i]).r]]
 
 Fan == { [c |-> c, r |-> Apply(S, c).r, t |-> TargetOf(S, c), post |-> Post(S, c)] : c \in Calls(S) }
